@@ -77,7 +77,11 @@ def target(fam, n, tradok, variant):
         # the filter arguments of the association operations (the same ones
         # go to the traditional operation that defines the expected result)
         kw = {}
-        v = variant
+        if variant % 3:
+            # two thirds of the calls are unfiltered (large results, several
+            # pulls per session)
+            return (src,), kw
+        v = variant // 3
         role = [None, None, "left", "a", "b", "right", "A"][v % 7]
         if role:
             kw["Role"] = role
